@@ -808,6 +808,11 @@ pub fn judge_l(case: &LCase, end: &SimEnd, o: &LObs) -> LVerdict {
             // from the socket path (segmentation: C02) or from concurrency (C13)
             let h_ok = h_clean(&case.cfg, &co.sent);
             for mut x in verdict.violations {
+                if !multi && x.prop == "C13" {
+                    // one connection only: "the service ended the connection before an earlier request
+                    // was answered" is C01's clause, there is no other connection to blame
+                    x.prop = "C01";
+                }
                 if h_ok && matches!(x.prop, "C01" | "C03" | "C04" | "C05") {
                     let was = x.prop;
                     x.prop = if multi { "C13" } else if x.clause.starts_with("upgrade") { "C02" } else { was };
@@ -1717,6 +1722,24 @@ pub fn c04_l_spaces(tier: Tier) -> Vec<Space> {
     }]
 }
 
+/// one connection that moves more than a megabyte in total (many medium-sized requests)
+pub fn megabyte_conn(cfg: &SvcCfg, rng: &mut Rng, idx: usize) -> LConn {
+    let a = cfg.scripted[0].clone();
+    let mut s = Vec::new();
+    let mut i = 0;
+    let total = rng.range(1_100_000, 1_600_000) as usize;
+    while s.len() < total {
+        let pad = rng.range(1000, 6000) as usize;
+        s.extend(crate::alphabet::frame(&crate::alphabet::request(
+            &format!("{}.Echo", a),
+            Some(json!({"token": format!("c{}-{}", idx, i), "pad": "m".repeat(pad)})),
+            crate::alphabet::Flags::NONE,
+        )));
+        i += 1;
+    }
+    LConn::healthy(&s)
+}
+
 pub fn c01_spaces(tier: Tier) -> Vec<Space> {
     let cfg = SvcCfg::basic();
     let alpha = crate::alphabet::reduced();
@@ -1783,6 +1806,30 @@ pub fn c01_spaces(tier: Tier) -> Vec<Space> {
                 let mut c = LCase::single(&cfg, conn, steps, SchedCfg::random(&mut rng, 1));
                 c.initial = rng.range(1, 2) as usize;
                 Case::L(c)
+            }),
+        });
+    }
+    {
+        let cfg = SvcCfg::basic();
+        let n = if tier == Tier::Quick { 24 } else { 600 };
+        spaces.push(Space {
+            name: "L.seq.megabyte",
+            size: n,
+            exhaustive: false,
+            gen: Box::new(move |_idx, seed| {
+                let mut rng = Rng::new(seed);
+                let conn = megabyte_conn(&cfg, &mut rng, 0);
+                let len = conn.stream.to_vec().len();
+                // delivered in a handful of large segments, the client reading along
+                let mut steps = vec![Step::Connect(0)];
+                let mut left = len;
+                while left > 0 {
+                    let k = (rng.range(50_000, 400_000) as usize).min(left);
+                    steps.push(Step::Send(0, k));
+                    steps.push(Step::Quiesce);
+                    left -= k;
+                }
+                Case::L(LCase::single(&cfg, conn, steps, SchedCfg::random(&mut rng, 1)))
             }),
         });
     }
@@ -1997,6 +2044,15 @@ pub fn c06_spaces(tier: Tier) -> Vec<Space> {
             steps.push(Step::Send(2, good2.len()));
             let mut lc = LCase::single(&cfg, LConn::healthy(&bad), steps, SchedCfg::random(&mut rng, 1));
             lc.conns = vec![LConn::healthy(&bad), LConn::healthy(&good1), LConn::healthy(&good2)];
+            if rng.chance(1, 60) {
+                // a long-lived healthy neighbour that moves more than a megabyte
+                lc.conns[1] = megabyte_conn(&cfg, &mut rng, 1);
+                for st in lc.steps.iter_mut() {
+                    if let Step::Send(1, k) = st {
+                        *k = 2_000_000;
+                    }
+                }
+            }
             if hostile {
                 lc.conns[0].peer = Peer::StopReading;
                 lc.conns[0].s2c_cap = rng.range(1, 200) as usize;
@@ -2200,6 +2256,21 @@ pub fn c13_plan(tier: Tier) -> Plan {
             }),
         });
     }
+    {
+        // long histories: dozens of connections served one after the other (and a few overlapping) by
+        // a small pool, so that the same worker serves its N-th connection
+        let cfg = cfg.clone();
+        let n = if tier == Tier::Quick { 600 } else { 20_000 };
+        spaces.push(Space {
+            name: "L.multi.long-history",
+            size: n,
+            exhaustive: false,
+            gen: Box::new(move |_idx, seed| {
+                let mut rng = Rng::new(seed);
+                Case::L(long_history_case(&cfg, &mut rng, 0, false))
+            }),
+        });
+    }
     Plan {
         spaces,
         rule: "L: 2..8 (quick) / 2..64 (thorough) simultaneous raw clients against the real listen loop, max_worker_threads above the connection count; each client pipelines a random request sequence over the full alphabet whose tokens embed its connection number; a seeded global interleaving of per-connection send segments, quiescence waits and yields; random server-side short reads / short writes; in the fault-injecting half of the runs some peers say nothing, never read (tiny window: server writes block), send garbage, or reset / close in mid-stream. Oracles: per connection the reply stream equals the reference model of its own requests (strict for healthy peers, prefix-consistent for faulted ones), no foreign token ever appears, and at quiescence *while misbehaving peers are still stalled* every healthy connection has its complete replies. A second space plays histories with quiet moments: 1..4 generations of connections that open, talk and close (in random order) with the server draining completely in between, then idle connections stay open while a new one arrives and must be served. Distinct = (case, hash of the context-switch sequence); non-trivial = at least 6 context switches.".into(),
@@ -2302,13 +2373,60 @@ pub fn c14_spaces(tier: Tier) -> Vec<Space> {
     }]
 }
 
+/// dozens of short connections, mostly one after the other, against a small pool; with an idle
+/// timeout the server must still notice that it is idle afterwards
+pub fn long_history_case(cfg: &SvcCfg, rng: &mut Rng, idle_timeout: u64, stop_flag: bool) -> LCase {
+    let red = crate::alphabet::reduced();
+    let n = rng.range(15, 50) as usize;
+    let mut conns = Vec::new();
+    let mut steps = Vec::new();
+    let mut open: Vec<usize> = Vec::new();
+    for i in 0..n {
+        let kinds: Vec<_> = (0..rng.range(1, 3)).map(|_| *rng.pick(&red)).collect();
+        conns.push(LConn::healthy(&token_stream(cfg, &kinds, i)));
+        steps.push(Step::Connect(i));
+        steps.push(Step::Send(i, 10_000));
+        open.push(i);
+        // usually the connection ends before the next one comes; sometimes two or three overlap
+        while !open.is_empty() && (open.len() > 3 || rng.chance(3, 4)) {
+            let k = rng.usize(open.len());
+            let c = open.remove(k);
+            if rng.chance(1, 2) {
+                steps.push(Step::Quiesce);
+            }
+            steps.push(Step::HalfClose(c));
+        }
+        match rng.below(4) {
+            0 => steps.push(Step::Quiesce),
+            1 if idle_timeout > 0 => steps.push(Step::Sleep(rng.range(1, idle_timeout * 1000 - 1))),
+            _ => {}
+        }
+    }
+    for c in open {
+        steps.push(Step::HalfClose(c));
+    }
+    let (initial, max) = *rng.pick(&[(1usize, 1usize), (1, 2), (2, 2), (1, 4), (2, 4), (1, 100)]);
+    LCase {
+        cfg: cfg.clone(),
+        initial,
+        max,
+        idle_timeout,
+        stop_flag,
+        conns,
+        steps,
+        sched: SchedCfg::random(rng, 1),
+        slow_clock: 0,
+        clients: vec![],
+    }
+}
+
 pub fn c15_plan(tier: Tier) -> Plan {
     let cfg = SvcCfg::basic();
     let mut spaces = Vec::new();
     // systematic histories
     {
         let cfg = cfg.clone();
-        let hist = 12u64;
+        let hist = 13u64;
         let idle = [0u64, 1, 2];
         let stopm = 5u64; // absent, present-never-set, set before, set during, set after
         let pools = [(1usize, 1usize), (1, 4), (2, 2), (3, 4)];
@@ -2344,12 +2462,33 @@ pub fn c15_plan(tier: Tier) -> Plan {
             exhaustive: false,
             gen: Box::new(move |_idx, seed| {
                 let mut rng = Rng::new(seed);
-                let h = rng.below(12);
+                let h = rng.below(13);
                 let it = rng.below(3);
                 let sm = rng.below(5);
                 let (initial, max) = *rng.pick(&[(1usize, 1usize), (1, 4), (2, 2), (3, 4)]);
                 let slow = if rng.chance(1, 3) { 30 } else { 0 };
                 Case::L(life_case(&cfg, &mut rng, h, it, sm, initial, max, slow, true))
+            }),
+        });
+    }
+    {
+        // after a long history of connections the server must still find out that it is idle
+        let cfg = cfg.clone();
+        let n = if tier == Tier::Quick { 500 } else { 15_000 };
+        spaces.push(Space {
+            name: "L.life.long-history",
+            size: n,
+            exhaustive: false,
+            gen: Box::new(move |_idx, seed| {
+                let mut rng = Rng::new(seed);
+                let idle = rng.range(1, 2);
+                let stop = rng.chance(1, 2);
+                let mut c = long_history_case(&cfg, &mut rng, idle, stop);
+                if stop && rng.chance(1, 2) {
+                    c.steps.push(Step::Sleep(rng.range(0, 300)));
+                    c.steps.push(Step::SetStop);
+                }
+                Case::L(c)
             }),
         });
     }
@@ -2361,7 +2500,7 @@ pub fn c15_plan(tier: Tier) -> Plan {
     });
     Plan {
         spaces,
-        rule: "L with the simulated clock: idle_timeout {0,1,2} s x stop flag {absent, present but never set, set before / during / after the connections} x pools {(1,1),(1,4),(2,2),(3,4)} x fast-CPU / slow-thread clock x connection histories {none; one short; arrival just before the idle deadline; long-lived across several deadlines; closing exactly at the deadline; streaming reply blocked on a full window when the flag is set; arrivals every 50 ms for 3 s after the flag; burst of connections then silence; client vanishing mid-message; signals arriving every 30 ms for 2.5 idle periods with nobody connected; signal storm around a long-lived connection} x seeded schedules; a second batch injects signals into select (EINTR) at random points. Oracles on simulated milliseconds: Timeout only with idle_timeout>0 and >= idle_timeout since the last accept, never while a connection is in service (fast-CPU mode), Ok only and always once the flag is set, no accept starting > 1 s after the flag takes a connection, listen returns only after every accepted connection was closed by its worker with complete replies, promptly (fast-CPU mode), and it does return.".into(),
+        rule: "L with the simulated clock: idle_timeout {0,1,2} s x stop flag {absent, present but never set, set before / during / after the connections} x pools {(1,1),(1,4),(2,2),(3,4)} x fast-CPU / slow-thread clock x connection histories {none; one short; arrival just before the idle deadline; long-lived across several deadlines; closing exactly at the deadline; streaming reply blocked on a full window when the flag is set; arrivals every 50 ms for 3 s after the flag; burst of connections then silence; client vanishing mid-message; signals arriving every 30 ms for 2.5 idle periods with nobody connected; signal storm around a long-lived connection; an upgraded connection living across several deadlines} x seeded schedules; long histories of 15..50 short connections (mostly sequential, a few overlapping) against small pools, after which the server must still notice that it is idle or that the flag was set; a second batch injects signals into select (EINTR) at random points. Oracles on simulated milliseconds: Timeout only with idle_timeout>0 and >= idle_timeout since the last accept, never while a connection is in service (fast-CPU mode), Ok only and always once the flag is set, no accept starting > 1 s after the flag takes a connection, listen returns only after every accepted connection was closed by its worker with complete replies, promptly (fast-CPU mode), and it does return.".into(),
         level: "exploration",
         real: REAL_L.to_vec(),
         stub: {
@@ -2465,6 +2604,18 @@ fn life_case(cfg: &SvcCfg, rng: &mut Rng, hist: u64, idle: u64, stopm: u64, init
                 steps.push(Step::HalfClose(i));
             }
         }
+        12 => {
+            // an upgraded connection that lives across several deadlines (and across the stop flag)
+            let mut c2 = cfg.clone();
+            c2.upgrade_mode = 3;
+            let mut s = echo(0);
+            s.extend(crate::alphabet::frame(&crate::alphabet::upgrade_request(&c2, rng.chance(1, 2), "c0-up")));
+            s.extend_from_slice(b"a\nEnd\n");
+            let first = s.len();
+            s.extend_from_slice(b"b\nEnd\n");
+            conns.push(LConn::healthy(&s));
+            steps.extend([Step::Connect(0), Step::Send(0, first), Step::Sleep(idle_ms * 2 + rng.range(0, 700)), Step::Send(0, 10_000), Step::Sleep(rng.range(0, 300)), Step::HalfClose(0)]);
+        }
         9 => {
             // nobody comes, but signals keep arriving faster than the poll interval (interval timer,
             // profiler): every interrupted select must go on with the *remaining* time
@@ -2518,8 +2669,12 @@ fn life_case(cfg: &SvcCfg, rng: &mut Rng, hist: u64, idle: u64, stopm: u64, init
             }
         }
     }
+    let mut cfg = cfg.clone();
+    if hist == 12 {
+        cfg.upgrade_mode = 3;
+    }
     LCase {
-        cfg: cfg.clone(),
+        cfg,
         initial,
         max,
         idle_timeout: idle,
